@@ -87,21 +87,24 @@ func installSandbox(e *twig.Engine) {
 
 // GlobalData is what installGlobals registered on an engine (kept so that C18 can snapshot it).
 type GlobalData struct {
-	GL []interface{}
-	GM map[string]interface{}
+	GL   []interface{}
+	GM   map[string]interface{}
+	GCfg map[string]interface{}
 }
 
 // installGlobals registers engine-wide globals: a string, a list, a nested map and a struct pointer.
 func installGlobals(e *twig.Engine) *GlobalData {
 	g := &GlobalData{
-		GL: append(make([]interface{}, 0, 6), "gz", "ga", 3),
-		GM: map[string]interface{}{"k": "gv", "n": 4, "inner": map[string]interface{}{"b": 2, "a": 1}, "list": []interface{}{"y", "x"}},
+		GL:   append(make([]interface{}, 0, 6), "gz", "ga", 3),
+		GCfg: map[string]interface{}{"mode": "prod"},
+		GM:   map[string]interface{}{"k": "gv", "n": 4, "inner": map[string]interface{}{"b": 2, "a": 1}, "list": []interface{}{"y", "x"}},
 	}
 	e.AddGlobal("g1", "G1")
 	e.AddGlobal("gn", 11)
 	e.AddGlobal("gl", g.GL)
 	e.AddGlobal("gm", g.GM)
 	e.AddGlobal("gp", &Person{Name: "Glob", Age: 9, Tags: []string{"gt"}})
+	e.AddGlobal("gcfg", g.GCfg)
 	return g
 }
 
